@@ -100,3 +100,36 @@ class Abstract(abc.ABC):
 
 class Concrete(Abstract):
     pass
+
+
+# two classes inheriting from two unrelated bases next to classes deriving from the second base only
+class Measured:
+    pass
+
+
+class Drawable:
+    pass
+
+
+class Arc(Measured, Drawable):
+    pass
+
+
+class Box(Measured, Drawable):
+    pass
+
+
+class Dot(Drawable):
+    pass
+
+
+class Line(Drawable):
+    pass
+
+
+class Poly(Drawable):
+    pass
+
+
+class Ring(Drawable):
+    pass
